@@ -262,3 +262,57 @@ def addr_literal_axioms(ex: Any, st: Any, ins: VRef) -> List[Any]:
 
 
 ON_TOUCH.setdefault("Addr", []).append(addr_literal_axioms)
+
+
+def int_push_ins_axioms(ex: Any, st: Any, it: Any, vt: Any) -> List[Any]:
+    """Instruction-level semantics of the literal pushes, and the *definition* of the ghosts HASINTLIT / INTLIT:
+      int / pushint c      pushes c (a named constant pushes its assembler value; valid programs use the assembler's names)
+      intc i / intc_k      pushes constants[i] of the governing intcblock.  Lemma L-INTC (trusted, DESIGN §7): when
+                           Teal._int_constants is non-empty it holds the constants of the program's only intcblock, which
+                           sits in the entry block and therefore governs every intc of every run."""
+    from spec.ghost import HASINTLIT, INTLIT
+    ct = class_table()
+    out: List[Any] = []
+    lit_cases = []
+    for cname in ("Int", "PushInt"):
+        C = ct.cls(cname)
+        val, _ = ex.read_field(VRef(it, C, ex), C, "_value", st)
+        for g, alt in val.alts:
+            if isinstance(alt, VInt):
+                out.append(z3.Implies(z3.And(cls_is(ex, it, cname), g),
+                                      z3.And(VAL(vt, it, 0) == alt.term, alt.term >= 0, alt.term <= MAX_UINT64,
+                                             HASINTLIT(it), INTLIT(it) == alt.term)))
+                lit_cases.append(z3.And(cls_is(ex, it, cname), g))
+            elif isinstance(alt, VStr):
+                out.append(z3.Implies(z3.And(cls_is(ex, it, cname), g),
+                                      z3.And(VAL(vt, it, 0) == NAMED(alt.term),
+                                             z3.Or([alt.term == z3.StringVal(n) for n in NAMED_CONSTANTS]))))
+    for nm, val_ in NAMED_CONSTANTS.items():
+        out.append(NAMED(z3.StringVal(nm)) == val_)
+    IC, I_, BB, TL = ct.cls("IntcInstruction"), ct.cls("Instruction"), ct.cls("BasicBlock"), ct.cls("Teal")
+    idx, _ = ex.read_field(VRef(it, IC, ex), IC, "_idx", st)
+    bb, _ = ex.read_field(VRef(it, I_, ex), I_, "_bb", st)
+    for g, alt in bb.alts:
+        if isinstance(alt, VRef):
+            teal, _ = ex.read_field(alt, BB, "_teal", st)
+            for g2, alt2 in teal.alts:
+                if isinstance(alt2, VRef):
+                    consts, _ = ex.read_field(alt2, TL, "_int_constants", st)
+                    n = ex.list_len(consts, st).term
+                    cv = ex.list_get(consts, idx.term, st).term
+                    known = z3.And(cls_is(ex, it, "IntcInstruction"), g, g2, idx.term >= 0, idx.term < n)
+                    out.append(z3.Implies(known, z3.And(VAL(vt, it, 0) == cv, cv >= 0, cv <= MAX_UINT64,
+                                                        HASINTLIT(it), INTLIT(it) == cv)))
+                    lit_cases.append(known)
+    out.append(z3.Implies(HASINTLIT(it), z3.Or(lit_cases)))
+    return out
+
+
+def intc_index_axioms(ex: Any, st: Any, ins: VRef) -> List[Any]:
+    """assembler-valid immediates: the constant index of intc / intc_k is a uint8"""
+    IC = class_table().cls("IntcInstruction")
+    idx, _ = ex.read_field(VRef(ins.term, IC, ex), IC, "_idx", st)
+    return [idx.term >= 0, idx.term <= 255]
+
+
+ON_TOUCH.setdefault("IntcInstruction", []).append(intc_index_axioms)
